@@ -133,6 +133,8 @@ def generate(kinds, tier, rng):
 
 def judge(case, impl, drv):
     kind = case["kind"]
+    if isinstance(impl, dict) and impl.get("skip"):
+        return True, True
     default_ids = (kind in ("unique", "mermaid")) and not case.get("custom")
     if default_ids:
         p_ok = canon_ids(impl, kind) == canon_ids(drv["spec"], kind)
